@@ -295,6 +295,81 @@ func runC16(r *core.Run) {
 			return core.Outcome{Class: fmt.Sprint("mutation-then-query=", nontrivial), Nontrivial: nontrivial, Evals: len(c.Ops)}
 		})
 
+	type qCase struct {
+		Starts  []int `json:"starts"`
+		Ends    []int `json:"ends"`
+		Queries []int `json:"query_positions"`
+	}
+	qn := core.Pick(r, 4, 5)
+	r.Bound("query-orders", fmt.Sprintf("every list of 3..%d proper intervals (start < end) over the coordinates 0..4 x every sequence of 1..3 query positions over 0..4, followed by a descending and an ascending scan of all positions", qn))
+	core.Clause(r, "query-orders", core.Opts{Rule: "At is a pure query: on ONE index, whatever positions were asked before and in whatever order (a position again after another one, descending, ascending), every answer equals the brute-force answer for the original intervals; an index that organises itself lazily on first lookup shows here; non-trivial = at least 2 queries"},
+		func(emit func(qCase) bool) {
+			var kinds [][2]int
+			for s := 0; s <= 4; s++ {
+				for e := s + 1; e <= 4; e++ {
+					kinds = append(kinds, [2]int{s, e})
+				}
+			}
+			for n := 3; n <= qn; n++ {
+				sizes := make([]int, n)
+				for i := range sizes {
+					sizes[i] = len(kinds)
+				}
+				ok := enum.Tuples(sizes, func(t []int) bool {
+					st, en := make([]int, n), make([]int, n)
+					for i, k := range t {
+						st[i], en[i] = kinds[k][0], kinds[k][1]
+					}
+					return enum.Sequences(5, 3, func(q []int) bool {
+						if len(q) == 0 {
+							return true
+						}
+						return emit(qCase{st, en, slices.Clone(q)})
+					})
+				})
+				if !ok {
+					return
+				}
+			}
+		},
+		func(c qCase) core.Outcome {
+			starts, ends := slices.Clone(c.Starts), slices.Clone(c.Ends)
+			var fail string
+			p := catch(func() {
+				idx := regions.NewIndex(starts, ends)
+				ask := func(i int, when string) bool {
+					got, want := idx.At(i), bruteAt(c.Starts, c.Ends, i)
+					if !(len(got) == 0 && len(want) == 0) && !slices.Equal(got, want) {
+						fail = fmt.Sprintf("starts %v ends %v: after the queries %v, %s At(%d) = %v, want %v", c.Starts, c.Ends, c.Queries, when, i, got, want)
+						return false
+					}
+					return true
+				}
+				for k, q := range c.Queries {
+					if !ask(q, fmt.Sprintf("query %d:", k+1)) {
+						return
+					}
+				}
+				for i := 5; i >= -1; i-- {
+					if !ask(i, "descending scan:") {
+						return
+					}
+				}
+				for i := -1; i <= 5; i++ {
+					if !ask(i, "ascending scan:") {
+						return
+					}
+				}
+			})
+			if p != "" {
+				return core.Failf("panic: %s", p)
+			}
+			if fail != "" {
+				return core.Failf("%s", fail)
+			}
+			return core.Outcome{Class: fmt.Sprint("intervals=", len(c.Starts)), Nontrivial: len(c.Queries) >= 2, Evals: len(c.Queries) + 14}
+		})
+
 	core.Clause(r, "race-detector-pass", core.Opts{Serial: true, Rule: "NOT an enumeration: the same harness body (8 goroutines calling At on every position of every index of <= 2 intervals over {0,1,2}, mutating what they get back) run free-running in a separate -race build; a detector pass, reported as such"},
 		func(emit func(c16Race) bool) { emit(c16Race{"free-running -race build"}) },
 		func(c c16Race) core.Outcome {
